@@ -511,6 +511,9 @@ type measured interface {
 var (
 	sharedWKTEncoder        = wkt.NewEncoder(wkt.EncodeOptionWithMaxDecimalDigits(3))
 	sharedWKTEncoderDefault = wkt.NewEncoder()
+	// encode options are values: callers build a list once and pass it to every Marshal
+	sharedGeoJSONOptions = []geojson.EncodeGeometryOption{geojson.EncodeGeometryWithMaxDecimalDigits(3), geojson.EncodeGeometryWithBBox()}
+	sharedWKBOptions     = []wkbcommon.WKBOption{wkbcommon.WKBOptionEmptyPointHandling(wkbcommon.EmptyPointHandlingNaN)}
 )
 
 func Registry() []Fn {
@@ -775,6 +778,16 @@ func Registry() []Fn {
 			h, e5 := ewkbhex.Encode(in.BadT, ewkbhex.NDR)
 			h2, e6 := wkbhex.Encode(in.BadT, wkbhex.XDR)
 			return fmt.Sprintf("%q %v|%q %v|%x %v|%x %v|%s %v|%s %v", s, e1 != nil, s2, e2 != nil, b, e3 != nil, b2, e4 != nil, h, e5 != nil, h2, e6 != nil)
+		}},
+		{"geojson.Marshal+wkb.Marshal(one shared option list)", func(in *Input) bool { return hasGeom(in) && in.JSON != nil }, func(in *Input) string {
+			b, err := geojson.Marshal(in.T, sharedGeoJSONOptions...)
+			g, err2 := geojson.Encode(in.T, sharedGeoJSONOptions...)
+			var gb []byte
+			if err2 == nil {
+				gb, _ = json.Marshal(g)
+			}
+			w, err3 := wkb.Marshal(in.T, wkb.NDR, sharedWKBOptions...)
+			return in.fp(b, err, gb, err2, w, err3)
 		}},
 		{"wkt.Encoder.Encode(one shared Encoder)", func(in *Input) bool { return hasGeom(in) && in.WKT != "" }, func(in *Input) string {
 			// an Encoder is configuration; callers keep one and use it from wherever they encode
